@@ -118,17 +118,38 @@ theorem c20_pipe_header_case_invariant (f f' e e' : Tok) (rest : List Tok)
 
 /-- ... while a quoted `"except"` is an ordinary field name of an allow-list -/
 theorem c20_quoted_except_is_a_field :
-    parsePipeFields [⟨"fields".toList, false, true⟩, ⟨"except".toList, true, true⟩, ⟨[','], false, false⟩,
-      ⟨"a".toList, false, true⟩] = some (false, ["except".toList, "a".toList], []) := by decide
+    parsePipeFields [⟨"fields".toList, false, true, true⟩, ⟨"except".toList, true, true, true⟩, ⟨[','], false, false, true⟩,
+      ⟨"a".toList, false, true, true⟩] = some (false, ["except".toList, "a".toList], []) := by decide
 
-/-- the three query texts on which the first version of this model was wrong (found by the consistency layer), now as
-the source has them: `| fields a-b` is ONE composite name, `| fields $` is rejected, `| fieldſ a` is a fields pipe -/
+/-- the query texts on which earlier versions of this model were wrong (found by the consistency layer), now as the
+source has them: `| fields a-b` is ONE composite name, `| fields $` is rejected, `| fieldſ a` is a fields pipe; a
+non-ASCII rune is a token rune exactly when `unicode.IsLetter` / `IsDigit` says so (the token's oracle bit):
+`| fields €` is rejected ("unexpected symbol") while `| fields é` and `| fields ٣` are names -/
 theorem c20_field_names_are_composite_tokens :
-    parsePipeFields [⟨"fields".toList, false, true⟩, ⟨['a'], false, true⟩, ⟨['-'], false, false⟩, ⟨['b'], false, false⟩]
-      = some (false, ["a-b".toList], []) ∧
-    parsePipeFields [⟨"fields".toList, false, true⟩, ⟨['$'], false, true⟩] = none ∧
-    parsePipeFields [⟨['f', 'i', 'e', 'l', 'd', Char.ofNat 0x17F], false, true⟩, ⟨['a'], false, true⟩]
-      = some (false, [['a']], []) := by decide
+    parsePipeFields [⟨"fields".toList, false, true, true⟩, ⟨['a'], false, true, true⟩, ⟨['-'], false, false, false⟩,
+      ⟨['b'], false, false, true⟩] = some (false, ["a-b".toList], []) ∧
+    parsePipeFields [⟨"fields".toList, false, true, true⟩, ⟨['$'], false, true, false⟩] = none ∧
+    parsePipeFields [⟨['f', 'i', 'e', 'l', 'd', Char.ofNat 0x17F], false, true, true⟩, ⟨['a'], false, true, true⟩]
+      = some (false, [['a']], []) ∧
+    parsePipeFields [⟨"fields".toList, false, true, true⟩, ⟨[Char.ofNat 0x20AC], false, true, false⟩] = none ∧
+    parsePipeFields [⟨"fields".toList, false, true, true⟩, ⟨[Char.ofNat 0xE9], false, true, true⟩]
+      = some (false, [[Char.ofNat 0xE9]], []) ∧
+    parsePipeFields [⟨"fields".toList, false, true, true⟩, ⟨[Char.ofNat 0x663], false, true, true⟩]
+      = some (false, [[Char.ofNat 0x663]], []) :=
+  ⟨by decide, by decide, by decide, by decide, by decide, by decide⟩
+
+/-- no assumption on non-ASCII characters is left in `isComposite`: for an unquoted one-rune token it is the
+oracle bit (for runes other than `-` and `*`, which are ASCII) -/
+theorem c20_nonascii_rune_composite_iff_letter (c : Char) (sp lt : Bool) (h : c.toNat ≥ 128) :
+    isComposite ⟨[c], false, sp, lt⟩ = lt := by
+  have h1 : ¬ c.toNat < 128 := by omega
+  have hm : (c == '-') = false := by
+    have : c ≠ '-' := fun e => by rw [e] at h; exact absurd h (by decide)
+    simpa using this
+  have hs : (c == '*') = false := by
+    have : c ≠ '*' := fun e => by rw [e] at h; exact absurd h (by decide)
+    simpa using this
+  simp [isComposite, firstTokenRune, h1, hm, hs, utf8Len]
 
 /-- white space of any kind before a token (`SpaceSkipped`) ends a composite name, whatever the token is; without
 white space a composite token is glued on -/
@@ -141,10 +162,10 @@ theorem c20_space_ends_composite_name (acc : List Char) (t : Tok) (rest : List T
 
 /-- `| fields level message` (any white space between) are two names, `| fields level-message` is one -/
 theorem c20_space_separates_names_example :
-    parsePipeFields [⟨"fields".toList, false, true⟩, ⟨"level".toList, false, true⟩, ⟨"message".toList, false, true⟩] =
+    parsePipeFields [⟨"fields".toList, false, true, true⟩, ⟨"level".toList, false, true, true⟩, ⟨"message".toList, false, true, true⟩] =
       some (false, ["level".toList, "message".toList], []) ∧
-    parsePipeFields [⟨"fields".toList, false, true⟩, ⟨"level".toList, false, true⟩, ⟨['-'], false, false⟩,
-      ⟨"message".toList, false, false⟩] = some (false, ["level-message".toList], []) := by decide
+    parsePipeFields [⟨"fields".toList, false, true, true⟩, ⟨"level".toList, false, true, true⟩, ⟨['-'], false, false, true⟩,
+      ⟨"message".toList, false, false, true⟩] = some (false, ["level-message".toList], []) := by decide
 
 /-! ## Obligations on facts re-extracted from /repo on every run -/
 open SV.Extracted.C20
@@ -221,12 +242,12 @@ theorem c20_x_keywords_case_insensitive :
 
 /-! ## Non-vacuity -/
 
-example : parsePipeFields [⟨"FIELDS".toList, false, true⟩, ⟨"Except".toList, false, true⟩, ⟨"a".toList, false, true⟩,
-    ⟨[','], false, false⟩, ⟨"b".toList, false, true⟩, ⟨['|'], false, true⟩] =
-    some (true, ["a".toList, "b".toList], [⟨['|'], false, true⟩]) := by decide
-example : isKeyword ⟨"EXCEPT".toList, false, true⟩ "except".toList = true ∧
-    isKeyword ⟨"except".toList, true, true⟩ "except".toList = false := by decide
-example : parsePipeFields [⟨"fields".toList, false, true⟩, ⟨"level".toList, false, true⟩, ⟨"message".toList, false, true⟩] =
+example : parsePipeFields [⟨"FIELDS".toList, false, true, true⟩, ⟨"Except".toList, false, true, true⟩, ⟨"a".toList, false, true, true⟩,
+    ⟨[','], false, false, true⟩, ⟨"b".toList, false, true, true⟩, ⟨['|'], false, true, true⟩] =
+    some (true, ["a".toList, "b".toList], [⟨['|'], false, true, true⟩]) := by decide
+example : isKeyword ⟨"EXCEPT".toList, false, true, true⟩ "except".toList = true ∧
+    isKeyword ⟨"except".toList, true, true, true⟩ "except".toList = false := by decide
+example : parsePipeFields [⟨"fields".toList, false, true, true⟩, ⟨"level".toList, false, true, true⟩, ⟨"message".toList, false, true, true⟩] =
     some (false, ["level".toList, "message".toList], []) := by decide
 
 
